@@ -70,6 +70,14 @@ CALLED = [
     "SelectMany(ds, lambda {A}: (lambda {P}: Where({P}, lambda {C}: {C}.i_pt > {A}.i_pt))({A}.so_jets))",
     "Select(ds, lambda {A}: (lambda {P}: ({P}, {A}.i_eta))({A}.i_pt)[0])",
     "Select(Select(ds, lambda {A}: {A}.so_jets), lambda {B}: (lambda {P}: Count(Where({B}, lambda {C}: {C}.i_pt > {P})))(Count({B})))",
+    # the argument mentions the parameter's own name, and the body is fused (parts of the result are visited twice)
+    "Select(ds, lambda {A}: (lambda {P}: Where(Select({P}, lambda {C}: {C}.i_pt + 1), lambda {Q}: {Q} > 2))({A}.so_jets))",
+    "Select(ds, lambda {A}: (lambda {P}: Where(Where({P}, lambda {C}: {C}.i_pt > 1), lambda {Q}: {Q}.i_eta > 2))({A}.so_jets))",
+    "Select(ds, lambda {A}: (lambda {P}: Select(SelectMany({P}, lambda {C}: {C}.so_trk), lambda {Q}: {Q}.i_pt))({A}.so_jets))",
+    "Select(ds, lambda {A}: (lambda {P}: Select(Select({P}, lambda {C}: ({C}.i_pt, {C})), lambda {Q}: {Q}[1].i_eta + {Q}[0]))({A}.so_jets))",
+    "Select(ds, lambda {A}: (lambda {P}, {Q}: Count(Where(Select({P}, lambda {C}: {C}.i_pt), lambda {C}: {C} > {Q})))({A}.so_jets, {A}.i_pt))",
+    "Select(ds, lambda {A}: (lambda {P}: First(Select({P}.so_jets, lambda {C}: ({C}.i_pt, {P}.i_eta)))[1] + {P}.i_pt)({A}.o_p))",
+    "Where(ds, lambda {A}: (lambda {P}: Count(Where(Select({P}, lambda {C}: {C}.i_pt), lambda {Q}: {Q} > 1)) > 0)({A}.so_jets))",
 ]
 
 FIRST = [
